@@ -77,6 +77,9 @@ const fn e<C: Copy>(sym: C, ch: u8, code: u8, alts: &'static [u8]) -> Entry<C> {
 pub trait Oracle: Codec + 'static {
     const NAME: &'static str;
     const WIDTH: u8;
+    /// every bit pattern below 2^WIDTH is documented (true for the seven built-in codecs; the Verus layer
+    /// relies on it as law L8); derived codecs in general refuse the undeclared patterns
+    const FULL: bool = true;
     fn len() -> usize;
     fn entry(i: usize) -> Entry<Self>;
     /// index of the documented symbol a bit pattern decodes to
@@ -395,7 +398,7 @@ pub fn codec_bits_law<C: Oracle, S: Src>(s: &mut S) {
         let u = C::unsafe_from_bits(b);
         chk!(s, "L2 unsafe_from_bits agrees with try_from_bits where it succeeds", u == C::entry(i).sym);
     }
-    if C::WIDTH < 8 && b < (1u8 << C::WIDTH) {
+    if C::FULL && C::WIDTH < 8 && b < (1u8 << C::WIDTH) {
         chk!(s, "L8 every pattern below 2^BITS decodes", exp.is_some() && got.is_some());
     }
 }
@@ -473,6 +476,21 @@ pub fn codec_items<C: Oracle, S: Src>(s: &mut S) {
         chk!(s, "items() yields every documented symbol exactly once", seen[i] == 1);
         i += 1;
     }
+}
+
+/// C17: a derived codec implements exactly what its declaration says: the codec contract against the
+/// oracle computed from the declaration, plus `items()` = the variants in declaration order
+pub fn derived_codec_law<C: Oracle, S: Src>(s: &mut S) {
+    codec_contract::<C, S>(s);
+    let mut n = 0usize;
+    let mut ordered = true;
+    for x in C::items() {
+        if n >= C::len() || C::entry(n).sym != x {
+            ordered = false;
+        }
+        n += 1;
+    }
+    chk!(s, "C17 items() lists the variants in declaration order", ordered && n == C::len());
 }
 
 // ---------------------------------------------------------------- C05 / C07: symbol complement
